@@ -869,6 +869,15 @@ func runTransCase(r *FuncResult) string {
 			}
 			continue
 		}
+		if c == "err" {
+			var qs []string
+			for _, cl := range r.Sig.ErrClasses {
+				q, _ := leanString(cl)
+				qs = append(qs, q)
+			}
+			shows = append(shows, "GoSem.showErr ["+strings.Join(qs, ", ")+"] "+x)
+			continue
+		}
 		pr := printerFor(c, inst)
 		if pr == "" {
 			return ""
